@@ -1,5 +1,6 @@
 import TextxVerif.Wire
 import TextxVerif.LoadTree
+import TextxVerif.LoadTreePinned
 /-! JSON decoding / encoding for the load-tree driver (compiled with the library so that
 `lean --run Drivers/LoadTree.lean` starts fast). 
 ops:
@@ -7,6 +8,11 @@ ops:
       → {"ok":bool,"events":[[kind,pid,lab,[[cnt,instr,saved,nkeys]…]]…],
          "final":[[cnt,instr,saved,nkeys]…],"restored":[bool…]}
      loads[0] is run from the clean state; hooks may start loads[k] (k = action)
+     optional "then":[Load…]: later attempts with the same classes, one after the other (`runNext` on
+     `runHist`: the state the earlier attempts left, own event lists; hooks may start loads[k] again)
+      → additionally "then":[{"ok":bool,"events":[…],"final":[…]}…]
+  {"op":"run_pinned","nclasses":n,"loads":[Load…]} → {"ok","events","final","restored"}: the same tree on the machine
+      with the bookkeeping of the pinned code (`LoadTreePinned.lean`)
   {"op":"kwargs","attrs":[…],"assigned":[…],"contained":bool,"extras":[…],"ops"?:[[isSet,name]…]} → {"keys":[…]}
 Load  = {"pid","classes":[…],"syntax_ok","immut","root":OT,"pre"?:Hook,"imports":[Load…],
          "resolve":[Hook…],"unresolved","oprocs":[Hook…],"mproc":Hook}
@@ -69,6 +75,9 @@ def cleanState (_n : Nat) : Sh Nat :=
 def snapJson (s : List (Nat × Bool × Bool × Nat)) : Json :=
   toJson (s.map fun (a, b, c, d) => Json.arr #[toJson a, toJson b, toJson c, toJson d])
 
+def evsJson (l : List Ev) : Json :=
+  toJson (l.map fun e => Json.arr #[toJson e.kind, toJson e.pid, toJson e.lab, snapJson e.snap])
+
 /-- `[[isSet, name]…]`; an absent field = no stores of user code -/
 def parseOps (j : Json) : Option (List Kw.Op) :=
   match getArr? j "ops" with
@@ -90,19 +99,43 @@ def handle (j : Json) : Json :=
     let kw : Option (List Json) := match getArr? j "kw" with
       | some a => a.toList.mapM kwOne
       | none => if (getObj? j "kw").isSome then none else some []
-    match getNat? j "nclasses", (getArr? j "loads").bind (fun a => a.toList.mapM parseLoad), kw with
-    | some n, some (L :: Ls), some kws =>
+    let thens : Option (List Load) := match getArr? j "then" with
+      | some a => a.toList.mapM parseLoad
+      | none => if (getObj? j "then").isSome then none else some []
+    match getNat? j "nclasses", (getArr? j "loads").bind (fun a => a.toList.mapM parseLoad), kw, thens with
+    | some n, some (L :: Ls), some kws, some thens =>
       let table := L :: Ls
-      let r := runF table (table.length + 1) L (cleanState n)
+      let fuel := table.length + 1
+      let r := runF table fuel L (cleanState n)
       let cs := List.range n
-      Json.mkObj [
+      let later := (List.range thens.length).filterMap fun i =>
+        match thens[i]? with
+        | none => none
+        | some L' =>
+          let hist := (table, fuel, L) :: (thens.take i).map fun X => (table, fuel, X)
+          let r' := runNext table fuel L' (runHist hist (cleanState n))
+          some (Json.mkObj [("ok", toJson r'.2), ("events", evsJson r'.1.log), ("final", snapJson (snapOf cs r'.1))])
+      Json.mkObj ([
         ("ok", toJson r.2),
-        ("events", toJson (r.1.log.map fun e => Json.arr #[toJson e.kind, toJson e.pid, toJson e.lab, snapJson e.snap])),
+        ("events", evsJson r.1.log),
         ("own", toJson (r.1.own.map fun e => e.lab)),
         ("final", snapJson (snapOf cs r.1)),
         ("restored", toJson (cs.map fun c => decide ((r.1.core c).cur = .real c))),
-        ("kw", toJson kws)]
-    | _, _, _ => badOp
+        ("kw", toJson kws)] ++ (if thens.isEmpty then [] else [("then", toJson later)]))
+    | _, _, _, _ => badOp
+  | some "run_pinned" =>
+    -- the machine with the pinned bookkeeping (`LoadTreePinned.lean`); for experiments against the pinned tree
+    match getNat? j "nclasses", (getArr? j "loads").bind (fun a => a.toList.mapM parseLoad) with
+    | some n, some (L :: Ls) =>
+      let table := L :: Ls
+      let r := Pinned.runFP table (table.length + 1) L (cleanState n)
+      let cs := List.range n
+      Json.mkObj [
+        ("ok", toJson r.2),
+        ("events", evsJson r.1.log),
+        ("final", snapJson (snapOf cs r.1)),
+        ("restored", toJson (cs.map fun c => decide ((r.1.core c).cur = .real c)))]
+    | _, _ => badOp
   | some "kwargs" =>
     match kwOne j with
     | some keys => Json.mkObj [("keys", keys)]
